@@ -412,7 +412,7 @@ func cloneOSM(o *osm.OSM) *osm.OSM {
 }
 
 func canon(o *osm.OSM) string {
-	b, _ := json.Marshal(describeInput(o))
+	b, _ := json.Marshal(describeInput(o, nil))
 	return string(b)
 }
 
@@ -476,15 +476,19 @@ func wnDesc(ns osm.WayNodes) [][3]int64 {
 	return out
 }
 
-func describeInput(o *osm.OSM) map[string]interface{} {
+func describeInput(o *osm.OSM, areas []bool) map[string]interface{} {
 	var ns, ws, rs []interface{}
 	for _, n := range o.Nodes {
 		ns = append(ns, map[string]interface{}{"id": n.ID, "lon": n.Lon, "lat": n.Lat, "tags": tagsDesc(n.Tags),
 			"meta": []interface{}{tsOf(n.Timestamp), n.Version, n.ChangesetID, n.User, n.UserID}})
 	}
-	for _, w := range o.Ways {
-		ws = append(ws, map[string]interface{}{"id": w.ID, "nodes": wnDesc(w.Nodes), "tags": tagsDesc(w.Tags),
-			"meta": []interface{}{tsOf(w.Timestamp), w.Version, w.ChangesetID, w.User, w.UserID}, "area": w.Polygon()})
+	for i, w := range o.Ways {
+		m := map[string]interface{}{"id": w.ID, "nodes": wnDesc(w.Nodes), "tags": tagsDesc(w.Tags),
+			"meta": []interface{}{tsOf(w.Timestamp), w.Version, w.ChangesetID, w.User, w.UserID}}
+		if i < len(areas) {
+			m["area"] = areas[i]
+		}
+		ws = append(ws, m)
 	}
 	for _, r := range o.Relations {
 		var ms []interface{}
@@ -607,7 +611,8 @@ type run struct {
 }
 
 type scene struct {
-	in        *osm.OSM
+	in        *osm.OSM // pristine deep copy of what Convert was given (taken before anything ran)
+	areas     []bool   // Way.Polygon() of every way, evaluated on another copy
 	unchanged bool
 	runs      []run
 	problems  problems
@@ -673,12 +678,12 @@ func (s *scene) encode(class string) *wire.Case {
 		e.meta(n.Timestamp, n.Version, n.ChangesetID, n.User, n.UserID)
 	}
 	c.Len(len(o.Ways))
-	for _, w := range o.Ways {
+	for wi, w := range o.Ways {
 		c.Int(int64(w.ID))
 		e.wnodes(w.Nodes)
 		e.tags(tagsDesc(w.Tags))
 		e.meta(w.Timestamp, w.Version, w.ChangesetID, w.User, w.UserID)
-		c.Bool(w.Polygon())
+		c.Bool(s.areas[wi])
 	}
 	c.Len(len(o.Relations))
 	for _, r := range o.Relations {
@@ -702,7 +707,7 @@ func (s *scene) encode(class string) *wire.Case {
 			e.feature(f)
 		}
 	}
-	c.Desc = map[string]interface{}{"input": describeInput(o), "input_unchanged": s.unchanged, "runs": s.runs,
+	c.Desc = map[string]interface{}{"input": describeInput(o, s.areas), "input_unchanged": s.unchanged, "runs": s.runs,
 		"harness_problems": []string(s.problems)}
 	if inKnownClass(o) {
 		c.Known = knownClass
@@ -715,9 +720,14 @@ func (s *scene) encode(class string) *wire.Case {
 
 // runScene converts the data set under each option set (twice) and snapshots the input.
 func runScene(o *osm.OSM, bitsList []int) *scene {
-	s := &scene{in: o}
+	// the harness itself never calls a method on the data handed to Convert: the description,
+	// the encoding and the Polygon() flags all work on deep copies taken first
 	before := cloneOSM(o)
-	beforeText := canon(o)
+	s := &scene{in: before}
+	for _, w := range cloneOSM(o).Ways {
+		s.areas = append(s.areas, w.Polygon())
+	}
+	beforeText := canon(before)
 	for _, b := range bitsList {
 		var pr problems
 		f1 := observe(o, b, &pr)
@@ -733,7 +743,7 @@ func runScene(o *osm.OSM, bitsList []int) *scene {
 	}
 	s.unchanged = reflect.DeepEqual(before, o) && beforeText == canon(o)
 	if !s.unchanged {
-		s.problems.add("input data was modified by Convert")
+		s.problems.add("input data was modified by Convert: before %s after %s", beforeText, canon(o))
 	}
 	return s
 }
@@ -746,8 +756,26 @@ var interestingTags = [][2]string{{"building", "yes"}, {"highway", "residential"
 var boringTags = [][2]string{{"source", "survey"}, {"created_by", "JOSM"}, {"source:ref", "1"}, {"tiger:tlid", "7"}, {"attribution", ""},
 	{"history", "h"}, {"source_ref", "r"}, {"tiger:county", "c"}, {"tiger:upload_uuid", "u"}}
 
+// manyTags: 9-15 tags with distinct keys in random (not sorted) order — beyond any small-size
+// threshold code might special-case; includes keys the polygon rules and the interest rule read
+func manyTags(rng *rand.Rand) osm.Tags {
+	pool := [][2]string{{"addr:city", "X"}, {"addr:housenumber", "7"}, {"addr:street", "S"}, {"building", "yes"}, {"name", "N"},
+		{"source", "s"}, {"height", "9"}, {"roof:shape", "flat"}, {"created_by", "c"}, {"amenity", "cafe"}, {"wheelchair", "no"},
+		{"opening_hours", "24/7"}, {"area", "yes"}, {"highway", "service"}, {"natural", "wood"}, {"landuse", "grass"}, {"zz", "z"}, {"aa", "a"}, {"type", "t"}}
+	rng.Shuffle(len(pool), func(i, j int) { pool[i], pool[j] = pool[j], pool[i] })
+	n := 9 + rng.Intn(7)
+	var t osm.Tags
+	for _, kv := range pool[:n] {
+		t = append(t, osm.Tag{Key: kv[0], Value: kv[1]})
+	}
+	return t
+}
+
 func randTags(rng *rand.Rand) osm.Tags {
 	var t osm.Tags
+	if rng.Intn(10) == 0 {
+		return manyTags(rng)
+	}
 	switch rng.Intn(6) {
 	case 0:
 		return nil
@@ -863,6 +891,11 @@ func (g *gen) relation(tags osm.Tags, members osm.Members) *osm.Relation {
 	return r
 }
 
+// member roles as they occur in OSM (public transport, routes, multipolygons) plus junk
+var routeRoles = []string{"", "", "forward", "backward", "platform", "platform_exit_only", "platform_entry_only", "stop",
+	"stop_exit_only", "north", "alternative", "link", "inner", "outer", "Forward", "x y", "platformx"}
+var otherRoles = []string{"", "subarea", "Outer", "INNER", "outer ", "label", "admin_centre", "platform", "forward", "main_stream", "enclave"}
+
 func (g *gen) orient() orb.Orientation {
 	switch g.rng.Intn(5) {
 	case 0:
@@ -882,6 +915,15 @@ func (g *gen) rect(x0, y0, x1, y1 int) ([]osm.NodeID, bool) {
 		pts[1], pts[3] = pts[3], pts[1]
 		ccw = false
 	}
+	if g.rng.Intn(3) == 0 {
+		// eight nodes: a midpoint on every edge (more pieces to cut the ring into)
+		var more [][2]int
+		for i, p := range pts {
+			q := pts[(i+1)%len(pts)]
+			more = append(more, p, [2]int{(p[0] + q[0]) / 2, (p[1] + q[1]) / 2})
+		}
+		pts = more
+	}
 	var ids []osm.NodeID
 	for _, p := range pts {
 		var t osm.Tags
@@ -900,6 +942,9 @@ func (g *gen) rect(x0, y0, x1, y1 int) ([]osm.NodeID, bool) {
 func (g *gen) ringWays(ids []osm.NodeID, ccw bool, tags osm.Tags, broken bool) ([]*osm.Way, []orb.Orientation) {
 	ring := append(append([]osm.NodeID{}, ids...), ids[0])
 	k := 1 + g.rng.Intn(3)
+	if len(ids) >= 8 {
+		k = 1 + g.rng.Intn(6)
+	}
 	if k > len(ids) {
 		k = len(ids)
 	}
@@ -1046,7 +1091,7 @@ func (g *gen) multipolygon(ox, oy int) {
 		members = append(members, osm.Member{Type: osm.TypeNode, Ref: int64(1 + rng.Intn(int(g.nextN))), Role: "label"})
 	}
 	if rng.Intn(5) == 0 && len(g.o.Ways) > 0 {
-		members = append(members, osm.Member{Type: osm.TypeWay, Ref: int64(g.o.Ways[rng.Intn(len(g.o.Ways))].ID), Role: []string{"", "subarea", "Outer"}[rng.Intn(3)]})
+		members = append(members, osm.Member{Type: osm.TypeWay, Ref: int64(g.o.Ways[rng.Intn(len(g.o.Ways))].ID), Role: otherRoles[rng.Intn(len(otherRoles))]})
 	}
 	if rng.Intn(6) == 0 {
 		members = append(members, osm.Member{Type: osm.TypeWay, Ref: 800 + int64(rng.Intn(5)), Role: []string{"outer", "inner"}[rng.Intn(2)]})
@@ -1118,7 +1163,10 @@ func (g *gen) route(ox, oy int) {
 			i++ // gap
 		}
 	}
-	members := g.wayMembers(ws, nil, []string{"", "forward", "backward"}[rng.Intn(3)])
+	members := g.wayMembers(ws, nil, "")
+	for i := range members {
+		members[i].Role = routeRoles[rng.Intn(len(routeRoles))]
+	}
 	if rng.Intn(3) == 0 {
 		rng.Shuffle(len(members), func(i, j int) { members[i], members[j] = members[j], members[i] })
 	}
@@ -1204,11 +1252,11 @@ func (g *gen) loose(ox, oy int) {
 		for i := rng.Intn(4); i > 0; i-- {
 			switch rng.Intn(3) {
 			case 0:
-				ms = append(ms, osm.Member{Type: osm.TypeNode, Ref: int64(ids[rng.Intn(len(ids))]), Role: "via"})
+				ms = append(ms, osm.Member{Type: osm.TypeNode, Ref: int64(ids[rng.Intn(len(ids))]), Role: routeRoles[rng.Intn(len(routeRoles))]})
 			case 1:
-				ms = append(ms, osm.Member{Type: osm.TypeWay, Ref: int64(1 + rng.Intn(int(g.nextW))), Role: "from"})
+				ms = append(ms, osm.Member{Type: osm.TypeWay, Ref: int64(1 + rng.Intn(int(g.nextW))), Role: routeRoles[rng.Intn(len(routeRoles))]})
 			default:
-				ms = append(ms, osm.Member{Type: osm.TypeRelation, Ref: int64(1 + rng.Intn(int(g.nextR))), Role: ""})
+				ms = append(ms, osm.Member{Type: osm.TypeRelation, Ref: int64(1 + rng.Intn(int(g.nextR))), Role: otherRoles[rng.Intn(len(otherRoles))]})
 			}
 		}
 		var t osm.Tags
@@ -1355,10 +1403,28 @@ func corpus() []*osm.OSM {
 	o.Nodes[1].Tags = tagsOf("source", "x", "amenity", "cafe")
 	o.Nodes[4].Version = 0
 	out = append(out, o)
+	// more than eight tags, not in key order, on a closed way, a node and a relation
+	o = sharedOuter()
+	o.Relations = o.Relations[:1]
+	many := tagsOf("wheelchair", "no", "name", "N", "building", "yes", "addr:street", "S", "zz", "z", "height", "9",
+		"addr:city", "X", "source", "s", "roof:shape", "flat", "aa", "a", "amenity", "cafe", "opening_hours", "24/7")
+	o.Ways[0].Tags = append(osm.Tags{}, many...)
+	o.Ways[1].Tags = append(osm.Tags{}, many[:10]...)
+	o.Nodes[0].Tags = append(osm.Tags{}, many...)
+	o.Relations[0].Tags = append(tagsOf("type", "multipolygon"), many[:11]...)
+	out = append(out, o)
+	// public transport route: platform ways are members like any other
+	out = append(out, &osm.OSM{
+		Nodes: nodesAt([3]int{1, 1, 1}, [3]int{2, 2, 2}, [3]int{3, 3, 1}, [3]int{4, 4, 4}, [3]int{5, 2, 5}, [3]int{6, 3, 5}),
+		Ways:  osm.Ways{wayIDs(1, nil, 1, 2), wayIDs(2, tagsOf("highway", "path"), 2, 3), wayIDs(3, tagsOf("public_transport", "platform"), 5, 6), wayIDs(4, nil, 3, 4)},
+		Relations: osm.Relations{{ID: 5, Tags: tagsOf("type", "route", "route", "bus"), Members: osm.Members{
+			{Type: osm.TypeWay, Ref: 3, Role: "platform"}, {Type: osm.TypeWay, Ref: 1, Role: ""}, {Type: osm.TypeWay, Ref: 2, Role: "forward"},
+			{Type: osm.TypeWay, Ref: 4, Role: "platform_exit_only"}, {Type: osm.TypeNode, Ref: 5, Role: "stop"}}}},
+	})
 	// a route whose only member way has one resolvable node: feature with an empty MultiLineString
 	out = append(out, &osm.OSM{
-		Nodes: nodesAt([3]int{1, 1, 1}),
-		Ways:  osm.Ways{wayIDs(1, nil, 1, 902)},
+		Nodes:     nodesAt([3]int{1, 1, 1}),
+		Ways:      osm.Ways{wayIDs(1, nil, 1, 902)},
 		Relations: osm.Relations{{ID: 1, Tags: tagsOf("type", "route"), Members: osm.Members{{Type: osm.TypeWay, Ref: 1}}}},
 	})
 	// an area way closed on a node that is missing from the data: the ring must still be closed
